@@ -31,6 +31,11 @@ def gen(rng, tier, index):
     cfg["hex_record_len"] = rng.choice([1, 7, 16, 32])
     cfg["hex_ela"] = rng.random() < 0.3
     ops = netgen.make_ops(rng, cfg["version"], rng.randint(15, 60 if tier == "thorough" else 45), WEIGHTS, nodes=(1, 4))
+    if cfg["flavour"] in ("serial", "tcp") and rng.random() < 0.25:
+        # an update call from a second thread while the node's config request is being processed
+        cfg["sched"] = {"policy": "rw", "seed": rng.getrandbits(32), "p": rng.choice([0.02, 0.08, 0.2])}
+        cfg["max_steps"] = 1_500_000
+        ops = netgen.add_races(rng, cfg["version"], ops, "fw")
     return {"cfg": cfg, "ops": ops}
 
 
